@@ -20,6 +20,7 @@ Ltac case_matches H :=
 Lemma parse_inv s d : parse s = Ok d -> exists neg s', parse_finite neg s' = Ok d.
 Proof.
   unfold parse. intro H.
+  destruct (has_prefix (b ".+") _ || has_prefix (b ".-") _); [discriminate|].
   destruct (consume_prefix match s with [] => b "0" | _ :: _ => s end (b "-")) as [s1 neg].
   destruct (has_prefix (b "-") _ || has_prefix (b "+") _); [discriminate|].
   destruct (bytes_eqb _ (b "infinity") || bytes_eqb _ (b "inf")); [discriminate|].
